@@ -31,7 +31,7 @@ class FllMonitor:
     def install(self, probe):
         fl = self.fl
         self.probe = probe
-        probe.wrap(fl.FllExporter, "to_string", after=self._after_export)
+        probe.wrap(fl.FllExporter, "engine", after=self._after_export)  # to_string(engine), str(engine), Op.to_fll, to_file all end here
         probe.wrap(fl.FllImporter, "from_string", after=self._after_import)
         # which printer/parser pairs ran with non-default values (evidence only)
         for base in (fl.Term, fl.Activation, fl.Defuzzifier):
@@ -52,9 +52,12 @@ class FllMonitor:
 
     def _after_export(self, args, kwargs, token, result, exc):
         ctx, fl = self.ctx, self.fl
-        instance = args[1]
+        exporter, instance = args[0], args[1]
         if not isinstance(instance, fl.Engine):
             return
+        if exporter.separator != "\n":
+            # another separator: the matching importer must be used for the round trip
+            return self._after_export_with(exporter, instance, result, exc)
         d = fl.settings.decimals
         case = {"decimals": d, "fll": str(result)[:3000] if result else None}
         ctx.evaluated()
@@ -89,6 +92,23 @@ class FllMonitor:
                 ctx.violation(f"the imported engine differs structurally from the original ({kind})", dict(case, path=path), x, y)
         if not diffs:
             ctx.nontrivial(result)
+
+    def _after_export_with(self, exporter, instance, result, exc):
+        ctx, fl = self.ctx, self.fl
+        ctx.evaluated()
+        if exc is not None or not in_language(fl, instance) or any(exporter.separator in x for x in [instance.description] + [v.description for v in instance.variables] + [rb.description for rb in instance.rule_blocks]):
+            ctx.hit("out_of_domain:custom separator occurring in a description (or export failed)")
+            return
+        try:
+            back = fl.FllImporter(separator=exporter.separator).from_string(result)
+            again = fl.FllExporter(indent=exporter.indent, separator=exporter.separator).engine(back)
+        except Exception as ex:
+            ctx.violation(f"text exported with a custom separator is not importable with the same separator ({type(ex).__name__})", {"separator": exporter.separator, "fll": result[:1500], "error": repr(ex)[:200]}, "an engine", repr(ex)[:200])
+            return
+        ctx.hit("compare:text fixed point (custom separator)")
+        if again != result:
+            diff = first_difference(result.replace(exporter.separator, "\n"), again.replace(exporter.separator, "\n"))
+            ctx.violation(f"export(import(export(e))) differs from export(e) with a custom separator ({diff[0]})", {"separator": exporter.separator, "first_difference": diff[1:]}, diff[1], diff[2])
 
     def _after_import(self, args, kwargs, token, result, exc):
         ctx, fl = self.ctx, self.fl
@@ -204,7 +224,25 @@ def run(ctx):
                             ctx.hit(f"inconclusive:generated engine does not build: {type(ex).__name__}: {str(ex)[:60]}")
                             continue
                         try:
-                            text = fl.FllExporter().to_string(engine)  # judged by the monitor
+                            way = rnd.choice(["to_string", "to_string", "str", "Op.to_fll", "file", "separator"])
+                            if way == "str":
+                                text = str(engine)
+                            elif way == "Op.to_fll":
+                                text = fl.Op.to_fll(engine)
+                            elif way == "file":
+                                import os
+                                import tempfile
+
+                                with tempfile.TemporaryDirectory(prefix="vf-c14-") as tmpd:
+                                    path = os.path.join(tmpd, "engine.fll")
+                                    fl.FllExporter().to_file(path, engine)
+                                    text = open(path, encoding="utf-8").read()
+                                    fl.FllImporter().from_file(path)
+                            else:
+                                if way == "separator":
+                                    fl.FllExporter(indent=rnd.choice(["", "    "]), separator=rnd.choice(["; ", " | "])).to_string(engine)
+                                text = fl.FllExporter().to_string(engine)  # judged by the monitor
+                            ctx.hit(f"entry:{way}")
                         except Exception:
                             continue
                         ctx.hit(f"decimals:{d}")
@@ -254,7 +292,7 @@ def run(ctx):
         probe.report(ctx)
         ctx.extra["printer_parser_pairs_with_values"] = sorted(f"{c}.{n}" for c, n in mon.pairs)
         reach.report(ctx)
-    ctx.require("hook:FllExporter.to_string", "hook:FllImporter.from_string", "compare:text fixed point", "compare:structure", "compare:normalisation fixed point", "compare:identical outputs", "event:import accepted", "event:re-export after a weight change", "event:re-export under other decimals", "workload:exotic configuration")
+    ctx.require("hook:FllExporter.engine", "entry:str", "entry:file", "entry:separator", "entry:Op.to_fll", "hook:FllImporter.from_string", "compare:text fixed point", "compare:structure", "compare:normalisation fixed point", "compare:identical outputs", "event:import accepted", "event:re-export after a weight change", "event:re-export under other decimals", "workload:exotic configuration")
     for d in decs:
         ctx.require(f"decimals:{d}")
 
